@@ -1,6 +1,7 @@
 import Mastverif.Model.Ptr
 import Mastverif.Model.PtrIter
 import Mastverif.Model.PtrCursor
+import Mastverif.Model.PtrSeek
 import Mastverif.Model.Store
 import Std.Data.HashMap
 /-!
@@ -218,6 +219,14 @@ def pmirror (e : Enc) (layer : Nat → Nat) (bf : Nat) (p : PSt) (toks : List St
       | .err ps' => fin { p with ps := ps', last := "err" }
       | r => fin { p with last := outcomeStr (resOutcome r) }
     | none => p
+  | ["seek", slot, k] =>
+    match nat slot >>= (p.trees[·]?), nat k with
+    | some t, some k =>
+      match seekIter E t pfuel k p.ps with
+      | .ok es ps' => fin { p with ps := ps', last := "ok", lastVal := "[" ++ ",".intercalate (es.map fun (k, v) => s!"{k}={v}") ++ "]" }
+      | .err ps' => fin { p with ps := ps', last := "err" }
+      | r => fin { p with last := outcomeStr (resOutcome r) }
+    | _, _ => p
   | ["cur", slot, c] =>
     match nat slot >>= (p.trees[·]?), nat c with
     | some t, some c =>
@@ -282,7 +291,7 @@ def pcheckVal (p : PSt) (toks : List String) (resp : String) : PSt :=
   if !p.on || p.faulted then p else
   match toks with
   | [cmd, slot] | [cmd, slot, _] =>
-    if (cmd == "get" || cmd == "iter") && p.last == "ok" && (slot.toNat?.bind (p.trees[·]?)).isSome && p.lastVal != resp then
+    if (cmd == "get" || cmd == "iter" || cmd == "seek") && p.last == "ok" && (slot.toNat?.bind (p.trees[·]?)).isSome && p.lastVal != resp then
       { p with valBad := p.valBad ++ [s!"{cmd}{slot}:{p.lastVal}"] }
     else if (cmd == "cmin" || cmd == "cmax" || cmd == "cfwd" || cmd == "cbwd" || cmd == "cceil") && p.last == "ok" &&
         (slot.toNat?.bind (p.curs[·]?)).isSome && p.lastVal != resp then
